@@ -107,6 +107,9 @@ def chk_pair(case, note):
     if abs(case["lon1"]) > 179.9:
         note.cls("antimeridian")
     note.nt(True, key=[case["lat1"], case["lon1"], case["lat2"], case["lon2"], case["par1"], t1 > t2, t1 == t2, case["same_parity"]])
+    if not case.get("_swapped") and case["ctx_misc"] & 1:
+        # the identical two strings once more with the time stamps exchanged: the other frame is now the newer one
+        return chk_pair(dict(case, t1=case["t2"], t2=case["t1"], _swapped=True), type(note)())
     return None
 
 
